@@ -122,6 +122,23 @@ class Case:
                     g2.nodes[_n].pop(f0.lineage_key, None)   # such files carry no lineage attribute
             seg2 = None if tracks.segmentation is None else tracks.segmentation.copy()
             tracks = SolutionTracks(g2, segmentation=seg2, scale=scale_obj, ndim=self.ndim, features=fd)
+        via = sp.get("via")
+        if via == "deepcopy":
+            import copy as _copy
+            tracks = _copy.deepcopy(tracks)
+        elif via == "saveload":
+            # the object that is edited has been through the internal save format
+            import shutil
+            import tempfile
+            from pathlib import Path as _P
+
+            from funtracks.import_export import load_tracks, save_tracks
+            d = _P(tempfile.mkdtemp(prefix="ft_sl_", dir="/tmp"))
+            try:
+                save_tracks(tracks, d)
+                tracks = load_tracks(d, solution=True)
+            finally:
+                shutil.rmtree(d, ignore_errors=True)
         tracks._verif_id_base = sp.get("id_base", 0)  # harness-side hint for fresh id choices
         return tracks
 
